@@ -43,19 +43,32 @@ PickW(ws) == LET s == Expand(ws) IN s[Pick(1..Len(s))]
 (*  "none"; rvar: named result r in scope; dfr: body of a deferred literal;      *)
 (*  top: inside main's own activation in a session program (no deferred call     *)
 (*  there: at the global scope of a session it has no function to belong to);     *)
-(*  d: remaining nesting depth; incase: inside a switch case clause (named       *)
-(*  exclusion Excluded_F_C01_1: a loop there gets no label of its own, since the  *)
-(*  interpreter rejects a label declared inside a case clause - known finding)    *)
+(*  d: remaining nesting depth; incase: inside a switch case clause (kept for    *)
+(*  statistics; the exclusion Excluded_F_C01_1 it served is gone since the defect *)
+(*  was repaired)                                                                 *)
 Ctx0 == [rd |-> {"g0", "g1"}, wr |-> {"g0", "g1"}, loc |-> {}, defd |-> {}, labs |-> <<>>, incase |-> FALSE, pure |-> FALSE,
          fcall |-> TRUE, clos |-> {}, fs |-> FALSE, ret |-> "none", rvar |-> FALSE, dfr |-> FALSE, top |-> FALSE,
-         litidx |-> FALSE, ptrs |-> {}, sls |-> {}, d |-> 2]
+         litidx |-> FALSE, ptrs |-> {}, sls |-> {}, maps |-> {}, strs |-> {}, gotos |-> <<>>,
+         outer |-> [rd |-> {}, clos |-> {}, ptrs |-> {}, sls |-> {}, maps |-> {}, strs |-> {}], d |-> 2]
 
 RECURSIVE GenE(_, _), GenC(_, _), GenS(_), GenB(_, _), GenLitBody(_), GenDeferBody(_)
 
+\* a map key: a literal or a variable (taken modulo 4 by the semantics and the renderer)
+GenKey(c) == IF c.litidx \/ Pick(1..2) = 1 THEN Lit(Pick(0..3)) ELSE Var(Pick(c.rd))   \* Excluded_F_C01_3
+\* a string literal over {a, b, c} of length 0..3 (the parameter keeps TLC from caching the draw)
+RandStr(z) == [k |-> "slit", cs |-> [i \in 1..Pick(0..(3 + 0 * z)) |-> Pick(97..99)]]
+StrVar(c)  == [k |-> "sv", s |-> Pick(c.strs)]
+StrOp(c)   == IF c.strs # {} /\ Pick(1..2) = 1 THEN StrVar(c) ELSE RandStr(0)
+GenStr(c)  == IF Pick(1..2) = 1 THEN StrOp(c) ELSE [k |-> "scat", l |-> StrOp(c), r |-> StrOp(c)]
+
 GenLeaf(c) ==
     LET k == PickW(<< <<3, "lit">>, <<4, "var">>, <<1, "fld">>, <<1, "idx">>, <<IF c.ptrs # {} THEN 2 ELSE 0, "deref">>,
-                      <<IF c.sls # {} THEN 2 ELSE 0, "sl">> >>) IN
+                      <<IF c.sls # {} THEN 2 ELSE 0, "sl">>, <<IF c.maps # {} THEN 2 ELSE 0, "mget">>,
+                      <<IF c.maps # {} THEN 1 ELSE 0, "mlen">>, <<IF c.strs # {} THEN 1 ELSE 0, "slen">> >>) IN
     CASE k = "lit" -> Lit(Pick(0..5))
+      [] k = "mget"  -> [k |-> "mget", s |-> Pick(c.maps), i |-> GenKey(c)]
+      [] k = "mlen"  -> [k |-> "mlen", s |-> Pick(c.maps)]
+      [] k = "slen"  -> [k |-> "slen", s |-> Pick(c.strs)]
       [] k = "deref" -> [k |-> "deref", p |-> Pick(c.ptrs)]
       [] k = "sl"    -> [k |-> "sl", s |-> Pick(c.sls), ix |-> Pick(0..2)]
       [] k = "var" -> Var(Pick(c.rd))
@@ -83,40 +96,53 @@ IsConstE(e) == e.k = "lit" \/ (e.k = "bin" /\ IsConstE(e.l) /\ IsConstE(e.r))
 \*  Excluded_F_C01_2: a condition never compares two constant expressions
 \*  Excluded_F_C01_3: inside && / || an index expression has a literal index
 GenC(d, c) ==
-    LET k == IF d = 0 THEN "cmp" ELSE PickW(<< <<5, "cmp">>, <<1, "and">>, <<1, "or">>, <<1, "not">> >>)
+    LET sw == IF c.strs # {} THEN 2 ELSE 0
+        k == IF d = 0 THEN PickW(<< <<5, "cmp">>, <<sw, "scmp">> >>)
+             ELSE PickW(<< <<5, "cmp">>, <<sw, "scmp">>, <<1, "and">>, <<1, "or">>, <<1, "not">> >>)
         c2 == [c EXCEPT !.litidx = ~Pinned]
     IN
     CASE k = "cmp" -> LET l == GenE(1, c)
                           r == GenE(IF d = 0 THEN 0 ELSE 1, c)
                       IN Cmp(Pick({"lt", "le", "eq", "ne"}), IF ~Pinned /\ IsConstE(l) /\ IsConstE(r) THEN Var(Pick(c.rd)) ELSE l, r)
+      [] k = "scmp" -> [k |-> "scmp", op |-> Pick({"eq", "ne", "lt"}), l |-> StrVar(c), r |-> StrOp(c)]
       [] k = "and" -> [k |-> "and", l |-> GenC(0, c2), r |-> GenC(0, c2)]
       [] k = "or"  -> [k |-> "or",  l |-> GenC(0, c2), r |-> GenC(0, c2)]
       [] k = "not" -> [k |-> "not", x |-> GenC(0, c)]
 
 InSwitchOfLoop(c) == FALSE
-\* Excluded_F_C11_1: in a session program a nested block does not shadow a variable (the
-\* interpreter assigns the global of the same name instead - known finding of C11)
-FreeNames(c) == ({"x", "y", "z"} \ c.defd) \ (IF Profile = "session" /\ ~Pinned THEN c.rd ELSE {})
+FreeNames(c) == {"x", "y", "z"} \ c.defd
 FreeClos(c)  == {"c1", "c2"} \ (c.defd \cup c.clos)
 FreePtrs(c)  == {"p1", "p2"} \ (c.defd \cup c.ptrs)
 FreeSls(c)   == {"s1", "s2"} \ (c.defd \cup c.sls)
+\* the names visible where the outermost enclosing loop begins (kept while inside nested loops)
+Snap(c) == IF c.labs # <<>> THEN c.outer
+           ELSE [rd |-> c.rd, clos |-> c.clos, ptrs |-> c.ptrs, sls |-> c.sls, maps |-> c.maps, strs |-> c.strs]
+FreeMaps(c)  == {"m1", "m2"} \ (c.defd \cup c.maps)
+FreeStrs(c)  == {"w1", "w2"} \ (c.defd \cup c.strs)
 Inner(c)     == [c EXCEPT !.defd = {}, !.d = c.d - 1]
 
 \* body of a function literal of type func() int: its locals are its own
 GenLitBody(c) ==
-    LET c1 == [Inner(c) EXCEPT !.ret = "val", !.labs = <<>>, !.dfr = FALSE, !.loc = {}, !.top = FALSE] IN
+    LET c1 == [Inner(c) EXCEPT !.ret = "val", !.labs = <<>>, !.gotos = <<>>, !.dfr = FALSE, !.loc = {}, !.top = FALSE] IN
     GenB(Pick(0..2), c1) \o << [k |-> "ret", bare |-> FALSE, e |-> GenE(1, c1)] >>
 
 \* body of a deferred literal  defer func() { ... }()
 \* (Excluded_F_C06_1: a deferred literal does not refer to the variables of enclosing
 \*  loops - the interpreter shows it the last iteration's variable, known finding)
+\*  widened: nor to any variable declared inside the body of an enclosing loop)
 GenDeferBody(c) ==
-    LET lv == IF Pinned THEN {} ELSE {"i", "j", "k"}
-        c1 == [Inner(c) EXCEPT !.ret = "bare", !.labs = <<>>, !.dfr = TRUE, !.loc = {}, !.top = FALSE, !.rd = @ \ lv, !.wr = @ \ lv]
+    LET cut == ~Pinned /\ c.labs # <<>>
+        c0 == IF cut THEN [c EXCEPT !.rd = @ \cap c.outer.rd, !.wr = @ \cap c.outer.rd, !.clos = @ \cap c.outer.clos,
+                                    !.ptrs = @ \cap c.outer.ptrs, !.sls = @ \cap c.outer.sls, !.maps = @ \cap c.outer.maps,
+                                    !.strs = @ \cap c.outer.strs]
+              ELSE c
+        c1 == [Inner(c0) EXCEPT !.ret = "bare", !.labs = <<>>, !.gotos = <<>>, !.dfr = TRUE, !.loc = {}, !.top = FALSE]
         rec == IF Pick(1..3) # 1 THEN << [k |-> "recover", how |-> PickW(<< <<4, "direct">>, <<1, "helper">> >>),
                                          setr |-> c.rvar /\ Pick(1..2) = 1] >> ELSE <<>>
         pre == GenB(Pick(0..1), c1)
-        dd  == {pre[i].x : i \in {j \in 1..Len(pre) : pre[j].k = "def"}} \cup {pre[i].c : i \in {j \in 1..Len(pre) : pre[j].k = "mkclo"}}
+        dd  == {pre[i].x : i \in {j \in 1..Len(pre) : pre[j].k \in {"def", "gloop"}}} \cup {pre[i].c : i \in {j \in 1..Len(pre) : pre[j].k = "mkclo"}}
+               \cup {pre[i].p : i \in {j \in 1..Len(pre) : pre[j].k = "mkptr"}}
+               \cup {pre[i].s : i \in {j \in 1..Len(pre) : pre[j].k \in {"mksl", "slshare", "mkmap", "mshare", "sdef", "ssub"}}}
         post == IF Pick(1..4) = 1 THEN << [k |-> "panic", e |-> Lit(Pick(6..9))] >>
                 ELSE GenB(Pick(0..1), [c1 EXCEPT !.defd = dd])
     IN pre \o rec \o post
@@ -139,10 +165,22 @@ Kinds(c) ==
           <<IF deep THEN 2 ELSE 0, "rng">>, <<IF deep THEN 1 ELSE 0, "tswitch">>,
           <<IF deep /\ FreeNames(c) # {} THEN 1 ELSE 0, "ifinit">>, <<eff, "iswap">>,
           <<IF FreePtrs(c) # {} /\ ~c.pure THEN 1 ELSE 0, "mkptr">>,
-          <<IF c.ptrs # {} THEN 2 ELSE 0, "pset">>, <<IF c.ptrs # {} THEN 2 ELSE 0, "pop">>,
+          <<IF c.ptrs # {} THEN 4 ELSE 0, "pset">>, <<IF c.ptrs # {} THEN 4 ELSE 0, "pop">>,
           <<IF FreeSls(c) # {} /\ ~c.pure THEN 2 ELSE 0, "mksl">>,
           <<IF FreeSls(c) # {} /\ c.sls # {} /\ ~c.pure THEN 1 ELSE 0, "slshare">>,
-          <<IF c.sls # {} THEN 3 ELSE 0, "slset">>, <<IF c.sls # {} /\ ~c.pure THEN 3 ELSE 0, "printsl">>,
+          <<IF c.sls # {} THEN 6 ELSE 0, "slset">>, <<IF c.sls # {} /\ ~c.pure THEN 5 ELSE 0, "printsl">>,
+          <<IF FreeMaps(c) # {} /\ ~c.pure THEN 2 ELSE 0, "mkmap">>,
+          <<IF FreeMaps(c) # {} /\ c.maps # {} /\ ~c.pure THEN 1 ELSE 0, "mshare">>,
+          <<IF c.maps # {} THEN 7 * eff ELSE 0, "mset">>, <<IF c.maps # {} THEN 2 * eff ELSE 0, "mdel">>,
+          <<IF c.maps # {} THEN 2 * eff ELSE 0, "mok">>, <<IF c.maps # {} THEN 5 * eff ELSE 0, "printm">>,
+          <<IF c.maps # {} THEN 2 ELSE 0, "msum">>,
+          <<IF FreeStrs(c) # {} /\ ~c.pure THEN 2 ELSE 0, "sdef">>, <<IF c.strs # {} THEN 5 * eff ELSE 0, "sasg">>,
+          <<IF c.strs # {} THEN 2 * eff ELSE 0, "sidx">>, <<IF c.strs # {} /\ FreeStrs(c) # {} THEN 2 * eff ELSE 0, "ssub">>,
+          <<IF c.strs # {} THEN 5 * eff ELSE 0, "prints">>, <<IF c.strs # {} THEN 2 * eff ELSE 0, "srng">>,
+          <<IF deep /\ Len(c.gotos) < 3 THEN 1 ELSE 0, "gscope">>, <<IF c.gotos # <<>> THEN 4 ELSE 0, "goto">>,
+          <<IF deep /\ FreeNames(c) # {} THEN 1 ELSE 0, "gloop">>,
+          <<IF deep THEN 2 ELSE 0, "while">>,
+          <<IF deep /\ c.sls # {} THEN 2 ELSE 0, "rngsl">>, <<IF deep THEN eff ELSE 0, "rngarr">>,
           <<IF loop THEN 2 ELSE 0, "brk">>, <<IF loop THEN 2 ELSE 0, "cont">>,
           <<IF c.ret # "none" /\ Profile = "core" THEN 1 ELSE 0, "ret">>,
           <<IF deep /\ FreeClos(c) # {} THEN 2 * eff ELSE 0, "mkclo">>,
@@ -150,8 +188,7 @@ Kinds(c) ==
           <<IF deep /\ ~c.top THEN deferW * eff ELSE 0, "defer">>,
           <<(IF Profile = "defer" THEN 3 ELSE 1) * eff, "panic">>,
           <<(IF Profile = "defer" THEN 2 ELSE 0) * eff, "fault">>,
-          \* Excluded_F_C06_7: no recover inside a loop of a deferred literal
-          <<IF c.dfr /\ (Pinned \/ c.labs = <<>>) THEN 2 ELSE 0, "recover">>,
+          <<IF c.dfr THEN 2 ELSE 0, "recover">>,
           <<IF deep THEN 1 ELSE 0, "block">> >>
 
 \* a statement and the context for the statements that follow it in the block
@@ -178,7 +215,7 @@ GenS(c) ==
       [] k = "asgc"  -> S([k |-> "asg", x |-> Pick(c.wr), e |-> GenCall(c)])
       [] k = "defc"  -> LET x == Pick(FreeNames(c)) IN D(x, [k |-> "def", x |-> x, e |-> GenCall(c)])
       [] k = "printc" -> S([k |-> "print", id |-> Pick(100..99999), e |-> GenCall(c)])
-      [] k = "csc"   -> S([k |-> "discard", e |-> GenCall(c)])
+      [] k = "csc"   -> S([k |-> Pick({"discard", "blankcall"}), e |-> GenCall(c)])
       [] k = "retc"  -> S([k |-> "ret", bare |-> FALSE, e |-> GenCall(c)])
       [] k = "opasgc" -> S([k |-> "opasg", x |-> Pick(c.loc \cap c.wr), op |-> Pick({"add", "sub"}), e |-> CallE("f", GenE(1, c))])
       [] k = "ifc"   -> S([k |-> "if", c |-> Cmp(Pick({"lt", "le", "eq", "ne"}), CallE("f", GenE(1, c)), Lit(Pick(0..5))),
@@ -186,16 +223,60 @@ GenS(c) ==
       [] k = "if"    -> S([k |-> "if", c |-> GenC(1, c), th |-> GenB(Pick(1..2), Inner(c)),
                            el |-> IF Pick(1..2) = 1 THEN GenB(Pick(1..2), Inner(c)) ELSE <<>>])
       [] k = "for"   -> LET v   == <<"i", "j", "k">>[Len(c.labs) + 1]
-                            lab == IF c.incase /\ ~Pinned THEN "" ELSE <<"L1", "L2", "L3">>[Len(c.labs) + 1]
+                            lab == <<"L1", "L2", "L3">>[Len(c.labs) + 1]
                             \* Excluded_F_C01_4: the body does not assign the loop variable
                             c1  == [Inner(c) EXCEPT !.rd = @ \cup {v}, !.wr = IF Pinned THEN @ \cup {v} ELSE @ \ {v},
-                                                    !.loc = @ \cup {v}, !.labs = Append(@, lab)]
+                                                    !.loc = @ \cup {v}, !.labs = Append(@, lab), !.outer = Snap(c)]
                         IN S([k |-> "for", v |-> v, n |-> Pick(1..3), lab |-> lab, body |-> GenB(Pick(1..3), c1)])
       [] k = "rng"   -> LET v   == <<"i", "j", "k">>[Len(c.labs) + 1]
-                            lab == IF c.incase /\ ~Pinned THEN "" ELSE <<"L1", "L2", "L3">>[Len(c.labs) + 1]
+                            lab == <<"L1", "L2", "L3">>[Len(c.labs) + 1]
                             c1  == [Inner(c) EXCEPT !.rd = @ \cup {v}, !.wr = IF Pinned THEN @ \cup {v} ELSE @ \ {v},
-                                                    !.loc = @ \cup {v}, !.labs = Append(@, lab)]
+                                                    !.loc = @ \cup {v}, !.labs = Append(@, lab), !.outer = Snap(c)]
                         IN S([k |-> "rng", v |-> v, n |-> Pick(1..3), lab |-> lab, body |-> GenB(Pick(1..3), c1)])
+      [] k = "while" -> LET lab == <<"L1", "L2", "L3">>[Len(c.labs) + 1]
+                            c1  == [Inner(c) EXCEPT !.labs = Append(@, lab), !.outer = Snap(c)]
+                        IN S([k |-> "while", form |-> Pick({"cond", "inf"}), x |-> Pick(c.wr), n |-> Pick(1..3), lab |-> lab,
+                              body |-> GenB(Pick(1..2), c1)])
+      [] k \in {"rngsl", "rngarr"} ->
+                        LET v   == <<"i", "j", "k">>[Len(c.labs) + 1]
+                            vv  == <<"vi", "vj", "vk">>[Len(c.labs) + 1]
+                            lab == <<"L1", "L2", "L3">>[Len(c.labs) + 1]
+                            c1  == [Inner(c) EXCEPT !.rd = @ \cup {v, vv}, !.wr = IF Pinned THEN @ \cup {v, vv} ELSE @ \ {v, vv},
+                                                    !.loc = @ \cup {v, vv}, !.labs = Append(@, lab), !.outer = Snap(c)]
+                        IN S([k |-> k, s |-> IF k = "rngsl" THEN Pick(c.sls) ELSE "", v |-> v, vv |-> vv, lab |-> lab,
+                              body |-> GenB(Pick(1..3), c1)])
+      [] k = "gscope" -> LET lab == <<"G1", "G2", "G3">>[Len(c.gotos) + 1] IN
+                         S([k |-> "gscope", lab |-> lab, body |-> GenB(Pick(1..3), [Inner(c) EXCEPT !.gotos = Append(@, lab)])])
+      [] k = "goto"  -> S([k |-> "goto", lab |-> Pick({c.gotos[i] : i \in 1..Len(c.gotos)})])
+      [] k = "gloop" -> LET x  == Pick(FreeNames(c))
+                            c1 == [Inner(c) EXCEPT !.rd = @ \cup {x}, !.wr = @ \cup {x}, !.loc = @ \cup {x}]
+                        IN D(x, [k |-> "gloop", lab |-> "B", x |-> x, n |-> Pick(1..2), body |-> GenB(Pick(1..2), c1)])
+      [] k = "mkmap" -> LET n  == Pick(FreeMaps(c))
+                            c2 == IF Pinned THEN c ELSE [c EXCEPT !.ptrs = {}]     \* Excluded_F_C01_8
+                            f  == PickW(<< <<3, "lit">>, <<2, "make">>, <<1, "nil">> >>)
+                            k1 == Pick(0..3)
+                            ks == IF f # "lit" THEN <<>> ELSE IF Pick(1..2) = 1 THEN <<k1>> ELSE <<k1, (k1 + Pick(1..3)) % 4>>
+                        IN [s |-> [k |-> "mkmap", s |-> n, form |-> f, ks |-> ks, es |-> [i \in 1..Len(ks) |-> GenE(1, c2)]],
+                            c |-> [c EXCEPT !.maps = @ \cup {n}, !.defd = @ \cup {n}]]
+      [] k = "mshare" -> LET n == Pick(FreeMaps(c)) IN
+                        [s |-> [k |-> "mshare", s |-> n, from |-> Pick(c.maps)],
+                         c |-> [c EXCEPT !.maps = @ \cup {n}, !.defd = @ \cup {n}]]
+      [] k = "mset"  -> S([k |-> "mset", s |-> Pick(c.maps), i |-> GenKey(c), op |-> Pick({"set", "add"}), e |-> GenE(1, c)])
+      [] k = "mdel"  -> S([k |-> "mdel", s |-> Pick(c.maps), i |-> GenKey(c)])
+      [] k = "mok"   -> S([k |-> "mok", id |-> Pick(100..99999), s |-> Pick(c.maps), i |-> GenKey(c)])
+      [] k = "printm" -> S([k |-> "printm", s |-> Pick(c.maps)])
+      [] k = "msum"  -> S([k |-> "msum", s |-> Pick(c.maps), x |-> Pick(c.wr)])
+      [] k = "sdef"  -> LET n == Pick(FreeStrs(c)) IN
+                        [s |-> [k |-> "sdef", s |-> n, src |-> GenStr(c)],
+                         c |-> [c EXCEPT !.strs = @ \cup {n}, !.defd = @ \cup {n}]]
+      [] k = "sasg"  -> S([k |-> "sasg", s |-> Pick(c.strs), op |-> Pick({"set", "add"}), src |-> GenStr(c)])
+      [] k = "sidx"  -> S([k |-> "sidx", x |-> Pick(c.wr), s |-> Pick(c.strs), ix |-> Pick(0..3)])
+      [] k = "ssub"  -> LET n  == Pick(FreeStrs(c))
+                            lo == Pick(0..2)
+                        IN [s |-> [k |-> "ssub", s |-> n, from |-> Pick(c.strs), lo |-> lo, hi |-> lo + Pick(0..2)],
+                            c |-> [c EXCEPT !.strs = @ \cup {n}, !.defd = @ \cup {n}]]
+      [] k = "prints" -> S([k |-> "prints", s |-> Pick(c.strs)])
+      [] k = "srng"  -> S([k |-> "srng", s |-> Pick(c.strs)])
       [] k = "tswitch" -> LET n == Pick(1..2)
                               c1 == [Inner(c) EXCEPT !.incase = TRUE]
                           IN S([k |-> "tswitch", cases |-> [i \in 1..n |-> [c |-> GenC(1, c), body |-> GenB(Pick(1..2), c1)]],
@@ -224,8 +305,7 @@ GenS(c) ==
       [] k = "switch" -> LET n  == Pick(1..2)
                              vs == IF n = 1 THEN <<Pick(0..3)>> ELSE LET a == Pick(0..3) IN <<a, (a + Pick(1..3)) % 4>>
                              c1 == [Inner(c) EXCEPT !.incase = TRUE]
-                             \* Excluded_F_C01_9: a clause entered by fallthrough holds no return statement
-                             c2 == IF Pinned THEN c1 ELSE [c1 EXCEPT !.ret = "none"]
+                             c2 == c1
                              f1 == n = 2 /\ Pick(1..3) = 1
                          IN S([k |-> "switch", tag |-> GenE(1, c),
                                cases |-> [i \in 1..n |-> [v |-> vs[i], body |-> GenB(Pick(1..2), IF i = 2 /\ f1 THEN c2 ELSE c1),
@@ -252,8 +332,11 @@ GenB(n, c) ==
     IF n = 0 THEN <<>> ELSE
     LET h == GenS(c) IN
     \* nothing follows a statement that always leaves the block
-    IF h.s.k \in {"brk", "cont", "ret", "panic", "fault"} THEN <<h.s>>
-    ELSE <<h.s>> \o GenB(n - 1, h.c)
+    IF h.s.k \in {"brk", "cont", "ret", "panic", "fault", "goto"} THEN <<h.s>>
+    \* a statement that introduces a map, slice, string or pointer is followed by at least three more,
+    \* so that the new variable gets used (the weights of Kinds favour its uses once it is in scope)
+    ELSE LET rest == IF h.s.k \in {"mkmap", "mksl", "sdef", "mkptr"} /\ n - 1 < 3 THEN 3 ELSE n - 1
+         IN <<h.s>> \o GenB(rest, h.c)
 
 \* a random program: g (pure, plain result), f (named result r, effects, may call g and
 \* itself on a smaller argument), two (fixed, pure), and main
@@ -278,7 +361,7 @@ GenProg(z) ==
         fB  == GenB(Pick(1..3), cf) \o rec
                \o (IF Pick(1..2) = 1 THEN << [k |-> "block", body |-> GenB(Pick(1..2), Inner(cf))] >> ELSE <<>>)
         mB  == (IF fsM THEN << [k |-> "mkfs"] >> ELSE <<>>)
-               \o GenB(Pick(2..5), [cm EXCEPT !.fs = fsM])
+               \o GenB(Pick(3..7), [cm EXCEPT !.fs = fsM])
                \o (IF fsM THEN << [k |-> "callall"] >> ELSE <<>>)
                \o << [k |-> "printg"] >>
     IN [name |-> "", funcs |-> [f |-> [named |-> TRUE, body |-> fB], g |-> [named |-> FALSE, body |-> gB],
